@@ -76,7 +76,7 @@ def run(ctx):
             one(ctx, k["witness_desc"])
     n, skipped = ctx.n(200, 5000), 0
     for _ in range(n):
-        kw = {"vtol": 1e-10, "itol": 1e-10}
+        kw = {"vtol": 1e-10, "itol": 1e-10} if ctx.rng.random() < 0.6 else {}       # also the default tolerances
         if ctx.rng.random() < 0.5:
             kw["ta"] = float("%.3g" % ctx.rng.uniform(-40, 140))     # peak-temperature limits make the warnings depend on ta
         skipped += bool(one(ctx, gen_fn(ctx.rng), kw))
